@@ -89,6 +89,10 @@ def main():
         sys.exit(1 if bad else 0)
 
     # ---------------------------------------------------------------- explore
+    import glob
+
+    for old in glob.glob(os.path.join(common.HOME, "replays", f"{pid}-*.json")):
+        os.remove(old)  # replay files belong to the run that wrote them
     per = [total // nshards + (1 if i < total % nshards else 0) for i in range(nshards)]
     extra = dict(budget_s=cfg.get("budget_s"))
     procs = [spawn("explore", pid, a.tier, seed, i, nshards, per[i], workdir, extra=extra) for i in range(nshards)]
